@@ -39,3 +39,7 @@ for sid in ids:
         sh(["git", "-C", "/repo", "checkout", "--", "."])
         sh(["git", "-C", "/repo", "clean", "-fdq"])
 json.dump(results, open(res_path, "w"), indent=1, sort_keys=True)
+# evidence files were rewritten by the runs on changed trees: regenerate them on the unchanged tree
+for prop in sorted({json.load(open(os.path.join(V, "seeded", sid, "meta.json")))["property"] for sid in ids}):
+    r = sh([os.path.join(V, "check"), prop, "--tier", "quick"], cwd=V)
+    print("clean re-run %s: exit %d" % (prop, r.returncode))
